@@ -191,6 +191,348 @@ def zernike_rules(run, db):
                       'zernike_nm(%s, norm=%s) = %s, expected %s' % (label, norm, got.key(), want.key()), f.loc())
 
 
+def _has(p, text, truth):
+    t = text.replace(' ', '')
+    return any(c.replace(' ', '') == t and tr is truth for c, tr in p.conds)
+
+
+def forbes_rules(run, db):
+    """Forbes' auxiliary coefficients against the papers (Qbfs: oe-18-19-19700 App. A; Q2d: oe-20-3-2483 App. A)."""
+    Q = 'prysm.polynomials.qpoly.'
+    it, dom = norm_interp(db)
+    R = dom.R
+    ATOMS = ('g_qbfs', 'h_qbfs', 'f_qbfs', 'G_q2d', 'F_q2d', 'g_q2d', 'f_q2d', 'gamma', 'kronecker')
+
+    def call_prysm(fi, args, kwargs, node):
+        if fi.name in ATOMS:
+            a = list(args) + [kwargs[k] for k in ('n', 'm') if k in kwargs and len(args) < 2]
+            return dom.func_atom(fi.name, a)
+        return None
+    dom.call_prysm = call_prysm
+    n, m = Rat(R.atom('n')), Rat(R.atom('m'))
+    one, two = Rat(R.const(1)), Rat(R.const(2))
+
+    def at(name, *args):
+        return Rat(R.func(name, list(args)))
+
+    def paths(qual, kw):
+        f = db.func(qual)
+        res = [p for p in it.run(f, kwargs=lambda: {k: dom.sym(v) for k, v in kw.items()}) if p.outcome == 'return']
+        if not res:
+            raise AnalysisError('%s: no returning path' % qual)
+        return f, res
+
+    def verdict(f, construct, got, want, text):
+        g = as_rat(dom, got, f.name)
+        run.check(g == want, 'C07.forbes', f.qual, construct, text, '%s [%s] = %s, the published coefficient is %s' % (f.name, construct, g.key(), want.key()), f.loc())
+
+    # ---- Qbfs: f_0 = 2, f_1 = sqrt(19)/2, g_0 = -1/2, h_(n-2) = -n(n-1)/(2 f_(n-2)), g_(n-1) = -(1 + g_(n-2) h_(n-2))/f_(n-1), f_n = sqrt(n(n+1) + 3 - g_(n-1)^2 - h_(n-2)^2)
+    f, res = paths(Q + 'f_qbfs', {'n': 'n'})
+    seen = set()
+    for p in res:
+        if _has(p, 'n == 0', True):
+            verdict(f, 'n = 0', p.value, two, 'f_0 = 2'); seen.add(0)
+        elif _has(p, 'n == 1', True):
+            verdict(f, 'n = 1', p.value, Rat(R.sqrt(Rat(R.const(19)))) / 2, 'f_1 = sqrt(19)/2'); seen.add(1)
+        else:
+            want = Rat(R.sqrt(n * (n + 1) + 3 - at('g_qbfs', n - 1) * at('g_qbfs', n - 1) - at('h_qbfs', n - 2) * at('h_qbfs', n - 2)))
+            verdict(f, 'general n', p.value, want, 'f_n = sqrt(n(n+1) + 3 - g_(n-1)^2 - h_(n-2)^2)'); seen.add(2)
+    if seen != {0, 1, 2}:
+        raise AnalysisError('f_qbfs: expected the cases n = 0, n = 1, general; found %s' % sorted(seen))
+    f, res = paths(Q + 'g_qbfs', {'n_minus_1': 'k'})
+    k = Rat(R.atom('k'))
+    seen = set()
+    for p in res:
+        if _has(p, 'n_minus_1 == 0', True):
+            verdict(f, 'g_0', p.value, -one / 2, 'g_0 = -1/2'); seen.add(0)
+        else:
+            verdict(f, 'general', p.value, -(one + at('g_qbfs', k - 1) * at('h_qbfs', k - 1)) / at('f_qbfs', k), 'g_k = -(1 + g_(k-1) h_(k-1))/f_k'); seen.add(1)
+    if seen != {0, 1}:
+        raise AnalysisError('g_qbfs: expected two cases')
+    f, res = paths(Q + 'h_qbfs', {'n_minus_2': 'k'})
+    for p in res:
+        verdict(f, 'general', p.value, -(k + 2) * (k + 1) / (2 * at('f_qbfs', k)), 'h_k = -(k+2)(k+1)/(2 f_k)')
+
+    # ---- Q2d three-term coefficients (A.3)
+    f, res = paths(Q + 'abc_q2d', {'n': 'n', 'm': 'm'})
+    D = (4 * n * n - 1) * (m + n - 2) * (m + 2 * n - 3)
+    wantA = (2 * n - 1) * (m + 2 * n - 2) * (4 * n * (m + n - 2) + (m - 3) * (2 * m - 1)) / D
+    wantB = -2 * (2 * n - 1) * (m + 2 * n - 3) * (m + 2 * n - 2) * (m + 2 * n - 1) / D
+    wantC = n * (2 * n - 3) * (m + 2 * n - 1) * (2 * m + 2 * n - 3) / D
+    for p in res:
+        v = p.value
+        if not (isinstance(v, Tup) and len(v.items) == 3):
+            raise AnalysisError('abc_q2d does not return (A, B, C)')
+        for nm, got, want in zip('ABC', v.items, (wantA, wantB, wantC)):
+            verdict(f, nm, got, want, '%s_n^m as published (A.3)' % nm)
+
+    # ---- gamma_n^m = n! (2m+2n-3)!! / (2^(m+1) (m+n-3)! (2n-1)!!): its defining ratios
+    f = db.func('prysm.mathops.gamma')
+    res = [p for p in it.run(f, kwargs=lambda: {'n': dom.sym('n'), 'm': dom.sym('m')}) if p.outcome == 'return']
+    seen = set()
+    for p in res:
+        if _has(p, 'n == 1 and m == 2', True):
+            verdict(f, 'gamma_1^2', p.value, Rat(R.const(3)) / 8, 'gamma_1^2 = 3/8'); seen.add('a')
+        elif _has(p, 'n == 1 and m > 2', True):
+            verdict(f, 'gamma_1^m', p.value, (2 * m - 1) / (2 * (m - 2)) * at('gamma', one, m - 1), 'gamma_1^m = (2m-1)/(2(m-2)) gamma_1^(m-1)'); seen.add('b')
+        else:
+            verdict(f, 'gamma_n^m', p.value, n * (2 * m + 2 * n - 3) / ((m + n - 3) * (2 * n - 1)) * at('gamma', n - 1, m),
+                    'gamma_n^m = n(2m+2n-3)/((m+n-3)(2n-1)) gamma_(n-1)^m'); seen.add('c')
+    if seen != {'a', 'b', 'c'}:
+        raise AnalysisError('gamma: expected three cases, found %s' % sorted(seen))
+
+    # ---- G_n^m (A.15) and F_n^m (A.13)
+    def fact2(x):
+        return at('scipy.special.factorial2', x)
+
+    def fact(x):
+        return at('scipy.special.factorial', x)
+    pow2 = at('pow', two, m + 1)
+    f, res = paths(Q + 'G_q2d', {'n': 'n', 'm': 'm'})
+    seen = set()
+    for p in res:
+        if _has(p, 'n == 0', True):
+            verdict(f, 'n = 0', p.value, fact2(2 * m - 1) / (pow2 * fact(m - 1)), 'G_0^m = (2m-1)!!/(2^(m+1) (m-1)!)'); seen.add('0')
+        elif _has(p, 'n > 0 and m == 1', True):
+            delta = at('kronecker', n, one)
+            want = -(2 * n * n - 1) * (n * n - 1) / (8 * (4 * n * n - 1)) - delta / 24
+            verdict(f, 'm = 1', p.value, want, 'G_n^1 = -(2n^2-1)(n^2-1)/(8(4n^2-1)) - delta_(n,1)/24'); seen.add('1')
+        else:
+            want = -((2 * n * (m + n - 1) - m) * (n + 1) * (2 * m + 2 * n - 1)) / ((m + 2 * n - 2) * (m + 2 * n - 1) * (m + 2 * n) * (2 * n + 1)) * at('gamma', n, m)
+            verdict(f, 'general', p.value, want, 'G_n^m = -[2n(m+n-1)-m](n+1)(2m+2n-1)/[(m+2n-2)(m+2n-1)(m+2n)(2n+1)] gamma_n^m'); seen.add('g')
+    if len(seen) != 3:
+        raise AnalysisError('G_q2d: expected the cases n = 0; m = 1; general -- found %s' % sorted(seen))
+    f, res = paths(Q + 'F_q2d', {'n': 'n', 'm': 'm'})
+    seen = set()
+    for p in res:
+        if _has(p, 'n == 0 and m == 1', True):
+            verdict(f, 'F_0^1', p.value, one / 4, 'F_0^1 = 1/4'); seen.add('01')
+        elif _has(p, 'n == 0', True):
+            verdict(f, 'n = 0', p.value, m * m * fact2(2 * m - 3) / (pow2 * fact(m - 1)), 'F_0^m = m^2 (2m-3)!!/(2^(m+1) (m-1)!)'); seen.add('0')
+        elif _has(p, 'n > 0 and m == 1', True):
+            delta = at('kronecker', n, one)
+            want = (4 * (n - 1) * (n - 1) * n * n + 1) / (8 * (2 * n - 1) * (2 * n - 1)) + Rat(R.const(11)) / 32 * delta
+            verdict(f, 'm = 1', p.value, want, 'F_n^1 = [4(n-1)^2 n^2 + 1]/[8(2n-1)^2] + (11/32) delta_(n,1)'); seen.add('1')
+        else:
+            chi = m + n - 2
+            want = (2 * n * chi * (3 - 5 * m + 4 * n * chi) + m * m * (3 - m + 4 * n * chi)) / ((m + 2 * n - 3) * (m + 2 * n - 2) * (m + 2 * n - 1) * (2 * n - 1)) * at('gamma', n, m)
+            verdict(f, 'general', p.value, want, 'F_n^m = [2n chi(3-5m+4n chi) + m^2(3-m+4n chi)]/[(m+2n-3)(m+2n-2)(m+2n-1)(2n-1)] gamma_n^m, chi = m+n-2'); seen.add('g')
+    if len(seen) != 4:
+        raise AnalysisError('F_q2d: expected four cases, found %s' % sorted(seen))
+    fk = db.func('prysm.mathops.kronecker')
+    rk = [p for p in it.run(fk, kwargs=lambda: {'i': dom.sym('i'), 'j': dom.sym('j')}) if p.outcome == 'return']
+    okk = len(rk) == 2 and all(isinstance(p.value, Const) and p.value.v == (1 if _has(p, 'i == j', True) else 0) for p in rk)
+    run.check(okk, 'C07.forbes', fk.qual, 'definition', 'kronecker(i, j) is 1 if i == j else 0', 'kronecker is no longer the Kronecker delta', fk.loc())
+    # ---- f, g (A.18): f_0 = sqrt(F_0), g_n = G_n/f_n, f_n = sqrt(F_n - g_(n-1)^2)
+    f, res = paths(Q + 'g_q2d', {'n': 'n', 'm': 'm'})
+    for p in res:
+        verdict(f, 'definition', p.value, at('G_q2d', n, m) / at('f_q2d', n, m), 'g_n^m = G_n^m / f_n^m')
+    f, res = paths(Q + 'f_q2d', {'n': 'n', 'm': 'm'})
+    seen = set()
+    for p in res:
+        if _has(p, 'n == 0', True):
+            verdict(f, 'n = 0', p.value, Rat(R.sqrt(at('F_q2d', Rat(R.const(0)), m))), 'f_0^m = sqrt(F_0^m)'); seen.add(0)
+        else:
+            verdict(f, 'general', p.value, Rat(R.sqrt(at('F_q2d', n, m) - at('g_q2d', n - 1, m) * at('g_q2d', n - 1, m))), 'f_n^m = sqrt(F_n^m - (g_(n-1)^m)^2)'); seen.add(1)
+    if seen != {0, 1}:
+        raise AnalysisError('f_q2d: expected two cases')
+
+
+def qloop_rules(run, db, rule='C07.qloop'):
+    """Q2d and Qbfs: base cases, initial values, one recurrence step and the rotation of the carried pair, by induction."""
+    from .common import snapshot_loops, loop_as_function, loop_carried
+    Q = 'prysm.polynomials.qpoly.'
+    ATOMS = ('g_qbfs', 'h_qbfs', 'f_qbfs', 'g_q2d', 'f_q2d', 'abc_q2d', 'Qbfs', 'sign')
+
+    def mk():
+        it, dom = norm_interp(db)
+
+        def call_prysm(fi, args, kwargs, node):
+            if fi.name == 'abc_q2d':
+                return Tup([dom.func_atom('%s_q2d' % c, list(args)) for c in 'ABC'])
+            if fi.name in ATOMS:
+                return dom.func_atom(fi.name, list(args))
+            return None
+        dom.call_prysm = call_prysm
+        return it, dom
+
+    # ------------------------------------------------------------------ Q2d
+    it, dom = mk()
+    R = dom.R
+    at = lambda name, *a: Rat(R.func(name, list(a)))
+    C = lambda v: Rat(R.const(v))
+    f = db.func(Q + 'Q2d')
+    snaps = snapshot_loops(it, dom)
+    res = []
+    prefix_runs = it.run(f, kwargs=lambda: {'n': dom.sym('n'), 'm': dom.sym('m'), 'r': dom.sym('r'), 't': dom.sym('t')})
+    # snapshots are appended in run order: pair them with their paths through the recorded conditions
+    x = Rat(R.atom('r')) * Rat(R.atom('r'))
+    n_, m_, r_, t_ = [Rat(R.atom(a)) for a in 'nmrt']
+    kinds = set()
+    for p in prefix_runs:
+        if p.outcome != 'return':
+            continue
+        got = as_rat(dom, p.value, 'Q2d')
+        if _has(p, 'm == 0', True):
+            run.check(got == at('Qbfs', n_, r_), rule, f.qual, 'm = 0', 'Q_n^0 is the Qbfs polynomial of order n in r', 'Q2d(n, 0) returns %s' % got.key(), f.loc())
+            kinds.add('m0')
+            continue
+        M = as_rat(dom, p.frame.env['m'], 'm')
+        neg = _has(p, 'sign(m) == -1', True)
+        want_M = at('abs', m_)
+        okM = M == want_M
+        pref = (at('pow', r_, M) * Rat(R.trig('sin', M * t_))) if neg else (at('pow', r_, m_) * Rat(R.trig('cos', m_ * t_)))
+        m1 = _has(p, 'm == 1', True)
+        fq = lambda k: at('f_q2d', C(k), M)
+        gq = lambda k: at('g_q2d', C(k), M)
+        P0 = C(1) / 2
+        P1 = (1 - x / 2) if m1 else ((M - C(1) / 2) + (1 - M) * x)
+        Q0 = 1 / (2 * fq(0))
+        Q1 = (P1 - gq(0) * Q0) / fq(1)
+        P2 = (3 - x * (12 - 8 * x)) / 6
+        P3 = (5 - x * (60 - x * (120 - 64 * x))) / 10
+        Q2 = (P2 - gq(1) * Q1) / fq(2)
+        Q3 = (P3 - gq(2) * Q2) / fq(3)
+        label = '%s, %s' % ('m < 0' if neg else 'm > 0', '|m| = 1' if m1 else ('|m| != 1' if _has(p, 'm == 1', False) else ''))
+        run.check(okM, rule, f.qual, 'order used (%s)' % ('m < 0' if neg else 'm > 0'), 'the coefficients are taken at |m|', 'Q2d evaluates its coefficients at %s, expected |m|' % M.key(), f.loc())
+        base = None
+        for k, Qk in ((0, Q0), (1, Q1), (2, Q2), (3, Q3)):
+            if _has(p, 'n == %d' % k, True):
+                base = (k, Qk)
+        if base is not None:
+            k, Qk = base
+            run.check(got == Qk * pref, rule, f.qual, 'n = %d (%s)' % (k, label), 'Q_%d^m = published starting value times u^|m| %s(|m| t)' % (k, 'sin' if neg else 'cos'),
+                      'Q2d(n=%d; %s) returns %s, expected %s' % (k, label, got.key(), (Qk * pref).key()), f.loc())
+            kinds.add('base%d%s%s' % (k, neg, m1))
+            continue
+        # loop path
+        mine = [sn for sn in snaps if sn.conds == p.conds[:len(sn.conds)] and len(sn.conds) == len(p.conds)]
+        if len(mine) != 1:
+            raise AnalysisError('Q2d: could not pair the loop snapshot with the path %s' % (p.conds,))
+        sn = mine[0]
+        env = sn.env
+        want0 = (P2, P3, Q3, 4) if m1 else (P0, P1, Q1, 2)
+        g0 = [dom.rat(env.get(k)) for k in ('Pnm2', 'Pnm1', 'Qnm1', 'min_n')]
+        ok0 = all(a is not None for a in g0) and g0[0] == want0[0] and g0[1] == want0[1] and g0[2] == want0[2] and g0[3] == C(want0[3])
+        run.check(ok0, rule, f.qual, 'initial values (%s)' % label, 'the recurrence starts from (P_%d, P_%d, Q_%d) at order %d' % (want0[3] - 2, want0[3] - 1, want0[3] - 1, want0[3]),
+                  'Q2d (%s) enters its loop with Pnm2=%s, Pnm1=%s, Qnm1=%s, first order %s' % tuple([label] + [a.key() if a is not None else '?' for a in g0]), f.loc(sn.node))
+        rng = [dom.rat(it.ev(a, type('F', (), {'env': env, 'parent': None, 'module': f.module, 'fi': f})())) if False else None for a in []]
+        it_args = sn.node.iter.args if isinstance(sn.node.iter, ast.Call) and ast.unparse(sn.node.iter.func) == 'range' else None
+        okr = it_args is not None and len(it_args) == 2 and ast.unparse(it_args[0]) == 'min_n' and ast.unparse(it_args[1]).replace(' ', '') == 'n+1'
+        run.check(okr, rule, f.qual, 'sweep range (%s)' % label, 'the sweep runs from the first order to n inclusive', 'Q2d sweeps %s' % ast.unparse(sn.node.iter), f.loc(sn.node))
+        run.check(got == Rat(R.atom('post_Qn')) * pref, rule, f.qual, 'result (%s)' % label, 'the last Q computed by the sweep times u^|m| %s(|m| t) is returned' % ('sin' if neg else 'cos'),
+                  'Q2d returns %s after the sweep' % got.key(), f.loc())
+        kinds.add('loop%s%s' % (neg, m1))
+        # one step
+        carried = loop_carried(sn.node)
+        run.check(carried == {'Pnm2', 'Pnm1', 'Qnm1'}, rule, f.qual, 'carried state (%s)' % label, 'the sweep carries (P_(n-2), P_(n-1), Q_(n-1))', 'Q2d sweep carries %s' % sorted(carried), f.loc(sn.node))
+        step, params = loop_as_function(f, sn.node, ['Pnm2', 'Pnm1', 'Qnm1', 'Qn'])
+        it2, dom2 = mk()
+        R2 = dom2.R
+        kw = {}
+        for pn in params:
+            if pn in ('Pnm2', 'Pnm1', 'Qnm1', 'nn'):
+                kw[pn] = dom2.sym('in_' + pn if pn != 'nn' else 'nn')
+            elif pn == 'Qn':
+                kw[pn] = Const(None)
+            elif pn == 'm':
+                kw[pn] = dom2.sym('M')
+            elif pn == 'x':
+                kw[pn] = dom2.sym('x')
+            else:
+                kw[pn] = dom2.sym(pn)
+        rs = [q for q in it2.run(step, kwargs=lambda: dict(kw)) if q.outcome == 'return']
+        if len(rs) != 1:
+            raise AnalysisError('Q2d: the recurrence step has %d paths' % len(rs))
+        outv = rs[0].value.items
+        a2 = lambda name, *a: Rat(R2.func(name, list(a)))
+        nn, M2, x2 = Rat(R2.atom('nn')), Rat(R2.atom('M')), Rat(R2.atom('x'))
+        iP2, iP1, iQ1 = [Rat(R2.atom('in_' + k)) for k in ('Pnm2', 'Pnm1', 'Qnm1')]
+        Pn = (a2('A_q2d', nn - 1, M2) + a2('B_q2d', nn - 1, M2) * x2) * iP1 - a2('C_q2d', nn - 1, M2) * iP2
+        Qn = (Pn - a2('g_q2d', nn - 1, M2) * iQ1) / a2('f_q2d', nn, M2)
+        gotv = [dom2.rat(v) for v in outv]
+        oks = all(v is not None for v in gotv) and gotv[0] == iP1 and gotv[1] == Pn and gotv[2] == Qn and gotv[3] == Qn
+        run.check(oks, rule, f.qual, 'step (%s)' % label, 'P_n = (A_(n-1) + B_(n-1) x) P_(n-1) - C_(n-1) P_(n-2); Q_n = (P_n - g_(n-1) Q_(n-1))/f_n; the pair is rotated',
+                  'Q2d recurrence step gives (Pnm2, Pnm1, Qnm1, Qn) = (%s), expected (P_(n-1), P_n, Q_n, Q_n) with P_n = %s, Q_n = %s' % (', '.join(v.key() if v is not None else '?' for v in gotv), Pn.key(), Qn.key()), f.loc(sn.node))
+    need = {'m0'} | {'base%d%s%s' % (k, neg, m1) for k in (0, 1) for neg in (True, False) for m1 in (True, False)} | {'base%d%sTrue' % (k, neg) for k in (2, 3) for neg in (True, False)} \
+        | {'loop%s%s' % (neg, m1) for neg in (True, False) for m1 in (True, False)}
+    if not need <= kinds:
+        raise AnalysisError('Q2d: expected cases not all found, missing %s' % sorted(need - kinds))
+
+    # ------------------------------------------------------------------ Qbfs
+    it, dom = mk()
+    R = dom.R
+    at = lambda name, *a: Rat(R.func(name, list(a)))
+    C = lambda v: Rat(R.const(v))
+    f = db.func(Q + 'Qbfs')
+    snaps = snapshot_loops(it, dom)
+    xx = Rat(R.atom('x'))
+    rho = xx * xx
+    cQ = rho * (1 - rho)
+    s19 = Rat(R.sqrt(C(19)))
+    kinds = set()
+    for p in it.run(f, kwargs=lambda: {'n': dom.sym('n'), 'x': dom.sym('x')}):
+        if p.outcome != 'return':
+            continue
+        got = as_rat(dom, p.value, 'Qbfs')
+        if _has(p, 'n == 0', True):
+            run.check(got == cQ, rule, f.qual, 'n = 0', 'Qbfs_0 = rho^2 (1 - rho^2) with rho = x', 'Qbfs(0) = %s' % got.key(), f.loc()); kinds.add(0)
+        elif _has(p, 'n == 1', True):
+            run.check(got == cQ * (13 - 16 * rho) / s19, rule, f.qual, 'n = 1', 'Qbfs_1 = rho^2(1-rho^2)(13 - 16 rho^2)/sqrt(19)', 'Qbfs(1) = %s' % got.key(), f.loc()); kinds.add(1)
+        else:
+            mine = [sn for sn in snaps if sn.conds == p.conds]
+            if len(mine) != 1:
+                raise AnalysisError('Qbfs: loop snapshot not found')
+            sn = mine[0]
+            env = sn.env
+            g0 = [dom.rat(env.get(k)) for k in ('Pnm2', 'Pnm1', 'Qnm2', 'Qnm1')]
+            want0 = [C(2), 6 - 8 * rho, C(1), (13 - 16 * rho) / s19]
+            ok0 = all(a is not None and a == b for a, b in zip(g0, want0))
+            run.check(ok0, rule, f.qual, 'initial values', 'P_0 = 2, P_1 = 6 - 8 rho^2, Q_0 = 1, Q_1 = (13 - 16 rho^2)/sqrt(19)', 'Qbfs enters its loop with %s' % [a.key() if a is not None else '?' for a in g0], f.loc(sn.node))
+            okr = isinstance(sn.node.iter, ast.Call) and [ast.unparse(a).replace(' ', '') for a in sn.node.iter.args] == ['2', 'n+1']
+            run.check(okr, rule, f.qual, 'sweep range', 'the sweep runs from 2 to n inclusive', 'Qbfs sweeps %s' % ast.unparse(sn.node.iter), f.loc(sn.node))
+            run.check(got == Rat(R.atom('post_Qn')) * cQ, rule, f.qual, 'result', 'the last Q of the sweep times rho^2(1-rho^2) is returned', 'Qbfs returns %s' % got.key(), f.loc())
+            carried = loop_carried(sn.node)
+            run.check(carried == {'Pnm2', 'Pnm1', 'Qnm2', 'Qnm1'}, rule, f.qual, 'carried state', 'the sweep carries (P_(n-2), P_(n-1), Q_(n-2), Q_(n-1))', 'Qbfs sweep carries %s' % sorted(carried), f.loc(sn.node))
+            step, params = loop_as_function(f, sn.node, ['Pnm2', 'Pnm1', 'Qnm2', 'Qnm1', 'Qn'])
+            it2, dom2 = mk()
+            R2 = dom2.R
+            kw = {pn: (Const(None) if pn == 'Qn' else dom2.sym(('in_' + pn) if pn in ('Pnm2', 'Pnm1', 'Qnm2', 'Qnm1') else pn)) for pn in params}
+            rs = [q for q in it2.run(step, kwargs=lambda: dict(kw)) if q.outcome == 'return']
+            if len(rs) != 1:
+                raise AnalysisError('Qbfs: the recurrence step has %d paths' % len(rs))
+            a2 = lambda name, *a: Rat(R2.func(name, list(a)))
+            nn, c2 = Rat(R2.atom('nn')), Rat(R2.atom('c'))
+            iP2, iP1, iQ2, iQ1 = [Rat(R2.atom('in_' + k)) for k in ('Pnm2', 'Pnm1', 'Qnm2', 'Qnm1')]
+            Pn = c2 * iP1 - iP2
+            Qn = (Pn - a2('g_qbfs', nn - 1) * iQ1 - a2('h_qbfs', nn - 2) * iQ2) / a2('f_qbfs', nn)
+            gotv = [dom2.rat(v) for v in rs[0].value.items]
+            oks = all(v is not None for v in gotv) and gotv[0] == iP1 and gotv[1] == Pn and gotv[2] == iQ1 and gotv[3] == Qn and gotv[4] == Qn
+            run.check(oks, rule, f.qual, 'step', 'P_n = (2 - 4 rho^2) P_(n-1) - P_(n-2); Q_n = (P_n - g_(n-1) Q_(n-1) - h_(n-2) Q_(n-2))/f_n; both pairs are rotated',
+                      'Qbfs recurrence step gives %s' % [v.key() if v is not None else '?' for v in gotv], f.loc(sn.node))
+            cdef = dom.rat(env.get('c'))
+            run.check(cdef is not None and cdef == 2 - 4 * rho, rule, f.qual, 'c', 'c = 2 - 4 rho^2', 'Qbfs uses c = %s' % (cdef.key() if cdef is not None else '?'), f.loc())
+            kinds.add(2)
+    if kinds != {0, 1, 2}:
+        raise AnalysisError('Qbfs: expected the cases n = 0, 1, general')
+    # Qcon
+    it, dom = mk()
+    R = dom.R
+
+    def call_prysm2(fi, args, kwargs, node):
+        if fi.name == 'jacobi':
+            return dom.func_atom('jacobi', list(args))
+        return None
+    dom.call_prysm = call_prysm2
+    f = db.func(Q + 'Qcon')
+    rs = returns(it.run(f, kwargs=lambda: {'n': dom.sym('n'), 'x': dom.sym('x')}), f)
+    xx = Rat(R.atom('x'))
+    want = Rat(R.func('jacobi', [Rat(R.atom('n')), Rat(R.const(0)), Rat(R.const(4)), 2 * xx * xx - 1])) * xx * xx * xx * xx
+    for p in rs:
+        g = as_rat(dom, p.value, 'Qcon')
+        run.check(g == want, rule, f.qual, 'definition', 'Qcon_n = x^4 P_n^(0,4)(2 x^2 - 1)', 'Qcon = %s, expected %s' % (g.key(), want.key()), f.loc())
+
+
 def check(run, db, tier):
     run.trust('ORDER engine: carried-set loop denotation with reference recurrences (sa/domains/order.py); NORM',
               'reference families: DLMF 18.9.1-2 (Jacobi), 18.9 (Hermite, Laguerre), Dickson D_0=2/E_0=1; Chebyshev kinds as normalised Jacobi per Mason & Handscomb')
@@ -202,6 +544,12 @@ def check(run, db, tier):
     run.group(loop_rules, run, db)
     run.group(compose_rules, run, db)
     run.group(zernike_rules, run, db)
+    run.rule('C07.forbes', "Forbes' auxiliary coefficients (Qbfs f/g/h; Q2d A/B/C, gamma, F, G, f, g) equal the published formulas, case by case")
+    run.group(forbes_rules, run, db)
+    run.require_instances('C07.forbes', 23)
+    run.rule('C07.qloop', 'Q2d / Qbfs / Qcon: published starting polynomials, initial carried values, recurrence step and rotation, sweep range, azimuthal/radial prefix (induction over the order)')
+    run.group(qloop_rules, run, db)
+    run.require_instances('C07.qloop', 40)
     run.require_instances('C07.abc', 4)
     run.require_instances('C07.loop', 20)
     run.require_instances('C07.compose', 10)
